@@ -1578,6 +1578,10 @@ evhttp_connection_cb_cleanup(struct evhttp_connection *evcon)
 		return;
 	}
 
+	/* We have given up: no retry is pending any more, so requests made
+	 * from now on must not be parked waiting for one. */
+	evcon->retry_cnt = 0;
+
 	/*
 	 * User callback can do evhttp_make_request() on the same
 	 * evcon so new request will be added to evcon->requests.  To
